@@ -175,6 +175,9 @@ var aliasPrograms = []string{
 	"/a [1 2 3 4 5] def a 0 4 getinterval a 1 4 getinterval copy a", "/a [1 2 3 4 5] def a 1 4 getinterval a 0 4 getinterval copy a",
 	"/s (abcdef) def s 0 4 getinterval s 2 4 getinterval copy s", "/s (abcdef) def s 1 5 getinterval s 0 5 getinterval copy s",
 	"/a [1 2 3] def a 0 a putinterval a", "/s (xyz) def s s copy s",
+	// dictionary identity: eq compares identity, whatever keys the operands hold (numeral keys included)
+	"<< /a 1 >> << /0 1 >> eq", "<< /0 1 >> << /a 1 >> eq", "<< /0 1 >> dup eq", "<< /0 1 /1 2 >> << /0 1 /2 2 >> ne", "<< /0 1 >> << /0 1 >> eq",
+	"<< /0 1 /1 1 /2 1 >> << /3 1 /4 1 /5 1 >> eq", "<< >> << >> eq", "<< >> dup eq", "<< /1 1 >> << /0 1 >> ne", "userdict << /0 0 >> eq",
 	// values a dictionary can hold: null and the file object are values like any other
 	"/v 1 array 0 get def v", "/f 7 def 3 dict begin /f currentfile def f end", "<< /a 1 array 0 get >> /a get", "<< /a 1 array 0 get >> /a known",
 	"/n 1 array 0 get def /n where", "/n 1 array 0 get def /n load", "5 dict begin /add 1 array 0 get def 1 2 add end", "/q currentfile def q currentfile eq",
